@@ -119,10 +119,10 @@ def convert_coord(line, ref):
     for nd in gaf_contigs:
         if nd == ">" or nd == "<":
             continue
-        if ":" in nd and "-" in nd:
-            tmp = nd.rstrip().split(":")
-            query_contig_name = tmp[0]
-            (query_start, query_end) = tmp[1].rstrip().split("-")
+        interval = re.match(r"^(.+):([0-9]+)-([0-9]+)$", nd.rstrip())
+        if interval:
+            # <contig>:<start>-<end>; the contig name itself may contain ':' or '-'
+            query_contig_name, query_start, query_end = interval.groups()
         else:
             query_start = line[7]
             query_end = line[8]
